@@ -199,6 +199,11 @@ def classes():
         for b in bvals[:2]:
             for c in (I(3), I(4)):
                 out.append(O('K.DCsub', a, b, c))
+    for ctor in ('K.ImmKw', 'K.SingKw'):
+        for a in avals[:3]:
+            for b in bvals[:2]:
+                for c in (I(3), I(2)):
+                    out.append(O(ctor, a, b, c))
     imm1 = O('K.Imm', I(1))
     out += [O('K.Imm', imm1), O('K.Imm', T(imm1)), O('K.Imm', imm1, imm1), O('K.DC', imm1), O('K.DC', O('K.DC', I(1))), O('K.Sing', O('K.Sing', I(1))),
             O('K.Imm', O('K.DC', I(1))), O('K.DC', O('K.Sing', I(1))), T(imm1, I(2)), T(I(1), I(2), T())]
